@@ -23,7 +23,7 @@ CHECKS["C08"] = dict(
     test="TestC08", level="exploration", exhaustive_part=True,
     exhaustive_part_text="every cancellation index k in 0..n+1 for every cancellable operation on chain and wide DAGs of the listed small sizes; early-exit kinds and stream x writer scenarios are fixed representatives plus random draws",
     quick=dict(shards=8, checks=40, timeout=600),
-    thorough=dict(shards=16, checks=500, timeout=3000),
+    thorough=dict(shards=16, checks=120, timeout=3000),
     assumptions=["goroutine-profile text format of the Go runtime (state names, frame names)", "one node per case; inter-node wedges are out of scope"],
 )
 
@@ -147,5 +147,5 @@ CHECKS["C19"]["thorough"]["fuzz"] = dict(target="FuzzC19", seconds=120)
 CHECKS["C20"]["thorough"]["fuzz"] = dict(target="FuzzC20", seconds=120)
 
 # depth of the thorough tier for the world-based checks comes from waves of processes (a process is capped at 150 worlds)
-for _p, _r in [("C01", 3), ("C02", 3), ("C03", 3), ("C06", 3), ("C09", 3), ("C10", 3), ("C07", 2), ("C13", 3), ("C14", 2), ("C16", 4)]:
+for _p, _r in [("C01", 3), ("C02", 3), ("C03", 3), ("C06", 3), ("C09", 3), ("C10", 3), ("C07", 2), ("C13", 3), ("C14", 2), ("C16", 4), ("C08", 4)]:
     CHECKS[_p]["thorough"]["rounds"] = _r
